@@ -3,6 +3,7 @@
 cd "$(dirname "$0")/.." || exit 2
 if [ -n "$(git -C /repo status --porcelain)" ]; then echo "repo not clean"; exit 2; fi
 res=seeded/RESULTS.md
+[ -n "$1" ] && res=/dev/null
 {
 echo "# Seeded breaking changes: which check reports which"
 echo
@@ -13,15 +14,16 @@ echo
 } > $res
 rc=0
 for d in seeded/C*/; do
-  id=$(basename $d)
-  git -C /repo apply "/verif/seeded/$id/patch.diff" || { echo "cannot apply $id"; rc=2; continue; }
+  name=$(basename $d); id=$(echo $name | cut -c1-3)
+  [ -n "$1" ] && [ "$1" != "$name" ] && [ "$1" != "$id" ] && continue
+  git -C /repo apply "/verif/seeded/$name/patch.diff" || { echo "cannot apply $id"; rc=2; continue; }
   out=$(./bin/jsv all 2>&1)
   git -C /repo checkout -- . ; git -C /repo clean -fdq
   own=$(echo "$out" | grep -c "VIOLATION property=$id ")
-  echo "## $id" >> $res
-  python3 -c "import json;m=json.load(open('seeded/$id/meta.json'));print(m.get('summary') or m.get('what') or '')" >> $res 2>/dev/null
+  echo "## $name" >> $res
+  python3 -c "import json;m=json.load(open('seeded/$name/meta.json'));print(m.get('summary') or m.get('what') or '')" >> $res 2>/dev/null
   echo >> $res
-  if [ "$own" -gt 0 ]; then echo "SEED $id: CAUGHT"; echo "**caught by its own property's check**:" >> $res; else echo "SEED $id: MISSED"; echo "**MISSED by $id's check**" >> $res; rc=1; fi
+  if [ "$own" -gt 0 ]; then echo "SEED $name: CAUGHT"; echo "**caught by its own property's check**:" >> $res; else echo "SEED $name: MISSED"; echo "**MISSED by $id's check**" >> $res; rc=1; fi
   echo >> $res
   echo "$out" | grep -E "^    key=" | sed 's/^    key=/    /' | sort -u | head -12 >> $res
   echo >> $res
